@@ -1,4 +1,5 @@
 import OrdModel.Proofs.PropsDecompress
+import OrdModel.Proofs.PropsTotal
 /-!
 # C28 — inscription properties round-trip and decoding is bounded
 
@@ -45,5 +46,35 @@ example : propertiesCbor (some [1, 2, 3]) (some BROTLI) [.data [7, 7], .data [8]
   decide
 example : propertiesCbor (some [1]) (some BROTLI) [.data (List.replicate 31 0), .data []] = none := by
   decide
+
+/-! ## Clause 3: decoding arbitrary bytes never panics
+
+Every `unwrap`/`assert`/index/checked-arithmetic site on the decode path is a `panic` branch of
+the model (`Txid::from_slice(..).unwrap()` in `from_cbor` and `from_value`, the `*n -= 1` of
+`Decoder::skip`, and "a loop of the Rust code fails to make progress" = fuel exhaustion). -/
+
+/-- `Properties::from_cbor` returns a value — never panics, never errors — for EVERY byte string. -/
+theorem c28_from_cbor_total (bs : Bytes) : ∃ p, fromCbor bs = .ok p := fromCbor_ok bs
+
+/-- `minicbor::decode::<Properties>` never panics, for every byte string. -/
+theorem c28_decode_total (bs : Bytes) (s : String) : decProperties bs ≠ .panic s :=
+  Le.not_panic (decProperties_le bs) s
+
+/-- `Decoder::skip` never panics (its counters never underflow and the loop always makes
+progress), and never returns more input than it was given. -/
+theorem c28_skip_total (bs : Bytes) :
+    (∀ s, skip bs ≠ .panic s) ∧ ∀ r, skip bs = .ok r → r.length ≤ bs.length := by
+  have h := skip_le bs
+  refine ⟨Le.not_panic h, ?_⟩
+  intro r hr; rw [hr] at h; exact h
+
+/-- `Inscription::properties` never panics, for every content of the `properties` and
+`property_encoding` fields and whatever the decompressor yields. -/
+theorem c28_properties_total (value encoding : Option Bytes) (stream : List ReadResult) :
+    ∃ p, inscriptionProperties value encoding stream = .ok p := by
+  unfold inscriptionProperties
+  split
+  · exact fromCbor_ok _
+  · exact ⟨_, rfl⟩
 
 end Ord.Props
